@@ -136,6 +136,9 @@ func (i *Index) Add(r Record, c bgzf.Chunk, mapped, placed bool) error {
 	}
 
 	rid := r.RefID()
+	if rid < 0 {
+		return errors.New("csi: attempt to add placed record without a reference ID")
+	}
 	if rid < len(i.refs)-1 {
 		return errors.New("csi: attempt to add record out of reference ID sort order")
 	}
